@@ -79,6 +79,10 @@ def build_source(desc, path):
 
         def hdr(t, i, x):
             h = {}
+            if desc.get('dup'):
+                # words 5 duplicates word 1, 81 duplicates 21, 181 duplicates 73; unique varying words interleaved
+                h.update({TF.TRACE_SEQUENCE_LINE: 3 * t + 1, TF.TRACE_SEQUENCE_FILE: 3 * t + 1, TF.CDP: 7 * x - i,
+                          TF.SourceX: 1000 + 7 * i + x, TF.GroupX: 7 * x - i})
             if nh <= 3:
                 h[TF.CDP_Y] = 77
             if nh <= 2:
@@ -89,7 +93,7 @@ def build_source(desc, path):
                 h[TF.ShotPoint] = -5 * i + x * x
             return h
         mk_segy(sgy, data, il, xl, dt_us=dt_us, t0=t0, present=present, hdr=hdr)
-        write_segy_sgz(sgy, path, bpv=desc['bpv'], blockshape=desc.get('bs'))
+        write_segy_sgz(sgy, path, bpv=desc['bpv'], blockshape=desc.get('bs'), header_detection=desc.get('hd', 'heuristic'))
         os.remove(sgy)
     elif k == '2d':
         sgy = path + '.sgy'
@@ -125,6 +129,14 @@ def catalogue():
     add(kind='segy', shape=(9, 5, 300), bpv=8, il=(30, -1), xl=(100, 4), nhdr=6, t0=40)
     add(kind='segy', shape=(16, 8, 40), bpv=4, il=(1, 1), xl=(1, 1), nhdr=3)
     add(kind='segy', shape=(13, 11, 260), bpv=8, il=(2, 3), xl=(-50, 5), nhdr=5, dt_us=500)
+    # duplicated varying header words interleaved with unique ones (fewer stored arrays than stored keys: D39), many arrays
+    add(kind='segy', shape=(6, 9, 130), bpv=16, il=(1, 1), xl=(10, 1), nhdr=4, dup=True)
+    add(kind='segy', shape=(9, 7, 300), bpv=8, il=(40, -3), xl=(-8, 2), nhdr=5, dup=True, dt_us=2000)
+    add(kind='segy', shape=(5, 6, 40), bpv=8, il=(1, 1), xl=(1, 1), nhdr=4, hd='exhaustive')
+    for f in ('padding_7x6.sgz', 'padding_5x8.sgz', 'padding_6x5.sgz'):
+        p = os.path.join(REPO, 'test_data', 'padding', f)
+        if os.path.exists(p):
+            add(kind='fixture', file=p)
     # other layouts: only whole inline blocks can be served
     add(kind='numpy', shape=(20, 20, 40), bpv=8, bs=(8, 8, 64), il=(1, 1), xl=(1, 1))
     add(kind='numpy', shape=(70, 65, 9), bpv=2, bs=(64, 64, 4), il=(-10, 1), xl=(5, 2))
@@ -211,9 +223,9 @@ def make_cases(n3, m3, nvalid, ninvalid, rows_only):
 PREAMBLE = '''
 Definition pk_code (p : packer) : Z := match p with PkU32 => 0 | PkI32 => 1 | PkBE16 => 2 end.
 Definition exn_code (e : exn) : Z := match e with IndexErr => 1 | OtherErr => 2 | _ => 3 end.
-Definition show (o : outcome crop_out) : Z * list Z * list (Z * Z * Z * Z) * list (Z * Z * Z) * list Z :=
+Definition show (T : list (Z * Z)) (o : outcome crop_out) : Z * list Z * list (Z * Z * Z * Z) * list (Z * Z * Z) * list Z * list Z :=
   match o with
-  | Raise e => (exn_code e, [], [], [], [])
+  | Raise e => (exn_code e, [], [], [], [], [])
   | Return R =>
     let c := footer_count (co_foot_shape R) (co_foot_win R) in
     (0, [co_i0 R; co_i1 R; co_x0 R; co_x1 R; co_z0 R; co_z1 R; co_data_len R; co_foot_pad R; c;
@@ -221,7 +233,8 @@ Definition show (o : outcome crop_out) : Z * list Z * list (Z * Z * Z * Z) * lis
      map (fun f => match f with (en, lo, hi, p, v) => (lo, hi, pk_code p, v) end)
          (filter (fun f => match f with (en, _, _, _, _) => en end) (co_fields R)), co_reads R,
      map (footer_src_index (co_foot_shape R) (co_foot_win R))
-         (if c <=? 400 then zrange 0 c else [0; 1; c / 3; c / 2; c - 2; c - 1]))
+         (if c <=? 400 then zrange 0 c else [0; 1; c / 3; c / 2; c - 2; c - 1]),
+     footer_arrays T)
   end.
 '''
 
@@ -235,7 +248,8 @@ def model_term(src, mode, ranges):
     A = '{| ax_z0_ms := %s; ax_dt_us := %s; ax_xl0 := %s; ax_xl_step := %s; ax_il0 := %s; ax_il_step := %s |}' % tuple(
         zlit(v) for v in src['afields'])
     f = 'crop_by_indexes' if mode == 'idx' else 'crop_by_coords'
-    return f'show ({f} ({H}) {A} {opt(ranges[0])} {opt(ranges[1])} {opt(ranges[2])})'
+    T = '[' + '; '.join(f'({k}, {ref})' for k, ref in src.get('table', [])) + ']'
+    return f'show {T} ({f} ({H}) {A} {opt(ranges[0])} {opt(ranges[1])} {opt(ranges[2])})'
 
 
 # ------------------------------------------------------------------------------------------------ real side
@@ -266,6 +280,20 @@ def load_source(desc, path):
             if not src['refuse']:
                 src['vol'] = r.read_volume()
                 src['keys'] = list(r.stored_header_keys)
+                # stored keys with the word each takes its array from; modelling assumption: distinct words, every entry an
+                # owner (ref = word) or a reference to an earlier owner, owners = the stated number of arrays
+                T = [(int(k), int(r.hw_info.table[int(k)][1])) for k in r.stored_header_keys]
+                src['table'] = T
+                own = [k for k, ref in T if ref == k]
+                seen, okT = [], len({k for k, _ in T}) == len(T)
+                for k, ref in T:
+                    okT = okT and (ref == k or ref in seen)
+                    if ref == k:
+                        seen.append(k)
+                if not okT or len(own) != r.n_header_arrays:
+                    R.notes.append(f'{desc}: header-word table outside the modelled form: {T}, {r.n_header_arrays} arrays')
+                    src['assume_ok'] = False
+                R.count('sources_with_duplicate_words', 1 if len(own) < len(T) else 0)
                 src['hdrs'] = {k: np.array(r.get_tracefield_values(k)) for k in src['keys']}
                 nt = r.n_ilines * r.n_xlines
                 src['th_idx'] = sorted({0, nt - 1, nt // 2, min(nt - 1, r.n_xlines)})
@@ -491,13 +519,14 @@ def check_corr(src, out, res, m, inp):
         C(f'output data section ({dlen} bytes) is not the source ranges the model places ({len(reads)} reads)')
     if not reshape_ok:
         C('model: reshape rejected but the implementation wrote the file')
-    nha = src['hfields'][10]
+    arrays = m[5]            # source array numbers in the order the model writes them
+    nha = len(arrays)
     if len(o) != 4096 * nhb + dlen + nha * (4 * cnt + fpad):
         C(f'output length {len(o)}; model: header {4096 * nhb} + data {dlen} + {nha} arrays of {4 * cnt}+{fpad}')
         return
     js = list(range(cnt)) if cnt <= 400 else [0, 1, cnt // 3, cnt // 2, cnt - 2, cnt - 1]
     for k in range(nha):
-        sa = sp.footer_array(k)
+        sa = sp.footer_array(arrays[k])
         base = 4096 * nhb + dlen + k * (4 * cnt + fpad)
         oa = np.frombuffer(o[base:base + 4 * cnt], dtype='<i4')
         if any(oa[j] != sa[s] for j, s in zip(js, idx)):
@@ -526,7 +555,7 @@ def main():
             plan += [(src, 'idx', ((0, 4), None, None), None), (src, 'idx', (None, (0, 4), None), None)]
             continue
         if not src['assume_ok']:
-            R.notes.append(f'{desc}: axis lengths differ from the stated counts (D14): source skipped')
+            R.notes.append(f'{desc}: outside the modelled form (axis lengths vs stated counts, D14; or header-word table): source skipped')
             R.count('skipped_source')
             continue
         n3, bs = src['n3'], src['bs']
